@@ -139,3 +139,30 @@ Proof.
 Qed.
 Theorem disj_items_nd : forall items c, In c (disj_items items) -> Forall no_disj c /\ incl (items_ids c) (items_ids items).
 Proof. intros items. apply items_nd. apply Forall_forall. intros it _. apply item_nd_all. Qed.
+
+(* function symbols of a conjunction of the product occur in the body *)
+Lemma item_fsyms_disj : forall ds, item_fsyms (IDisj ds) = flat_map items_fsyms ds.
+Proof.
+  intro ds. cbn [item_fsyms]. apply flat_map_ext. intro d. induction d as [|it d IH]; [reflexivity|].
+  unfold items_fsyms in *. cbn [flat_map]. rewrite IH. reflexivity.
+Qed.
+Definition item_fs (it : sitem) : Prop := forall c, In c (disj_item it) -> incl (items_fsyms c) (item_fsyms it).
+Lemma items_fs : forall items, Forall item_fs items -> forall c, In c (disj_items items) -> incl (items_fsyms c) (items_fsyms items).
+Proof.
+  induction items as [|it rest IH]; intros HF c Hc.
+  - destruct Hc as [<-|[]]. intros y [].
+  - inversion HF as [|? ? Hit Hrest]; subst. apply in_disj_items_cons in Hc as [a [b [Ha [Hb ->]]]].
+    unfold items_fsyms in *. rewrite flat_map_app. cbn [flat_map]. intros y Hy. apply in_app_or in Hy as [Hy|Hy]; apply in_or_app;
+      [left; apply (Hit a Ha); exact Hy | right; apply (IH Hrest b Hb); exact Hy].
+Qed.
+Lemma item_fs_simple : forall it, disj_item it = [[it]] -> item_fs it.
+Proof. intros it Hd c Hc. rewrite Hd in Hc. destruct Hc as [<-|[]]. unfold items_fsyms. cbn [flat_map]. rewrite app_nil_r. apply incl_refl. Qed.
+Lemma item_fs_all : forall it, item_fs it.
+Proof.
+  apply (sitem_ind' item_fs); try (intros; apply item_fs_simple; reflexivity).
+  intros ds HF c Hc. rewrite disj_item_disj in Hc. apply in_flat_map in Hc as [d [Hd Hc]].
+  rewrite Forall_forall in HF. rewrite item_fsyms_disj. intros y Hy. apply in_flat_map. exists d. split; [exact Hd|].
+  exact (items_fs d (HF d Hd) c Hc y Hy).
+Qed.
+Theorem disj_items_fsyms : forall items c, In c (disj_items items) -> incl (items_fsyms c) (items_fsyms items).
+Proof. intros items. apply items_fs. apply Forall_forall. intros it _. apply item_fs_all. Qed.
